@@ -744,6 +744,46 @@ func (e *Engine) specCall(cur, old *State, n SCall, env *SpecEnv) Val {
 			}
 			e.specErr("atloop(N, e): loop %d has not been entered here", ord)
 			return Val{K: KOpaque, T: e.fresh("specerr", "Int")}
+		case "kept": // kept("KEYFRAG"): every location of the matching arrays that existed at entry has its entry value
+			frag := ""
+			if lit, ok := n.Args[0].(SLit); ok && lit.Kind == "string" {
+				frag = strings.Trim(lit.Val, "\"")
+			}
+			if frag == "" {
+				e.specErr("kept(\"key fragment\")")
+				return boolVal("true")
+			}
+			keys := map[string]bool{}
+			for k := range cur.heap {
+				if strings.Contains(k, frag) && !isGhostKey(k) {
+					keys[k] = true
+				}
+			}
+			for k := range e.entry.heap {
+				if strings.Contains(k, frag) && !isGhostKey(k) {
+					keys[k] = true
+				}
+			}
+			var cs []string
+			for _, k := range sortedKeys(keys) {
+				srt := e.keySort[k]
+				if srt == "" {
+					continue
+				}
+				now := e.heapGet(cur, k, srt)
+				ent := e.heapGet(e.entry, k, srt)
+				if now == ent {
+					continue
+				}
+				if strings.HasPrefix(k, "G:") {
+					cs = append(cs, eq(now, ent))
+					continue
+				}
+				e.nfresh++
+				a := sym(fmt.Sprintf("q.kept!%d", e.nfresh))
+				cs = append(cs, fmt.Sprintf("(forall ((%s Int)) (=> (and (> %s 0) (< %s %s)) (= (select %s %s) (select %s %s))))", a, a, a, e.entry.A.term(), now, a, ent, a))
+			}
+			return boolVal(and(cs...))
 		case "lex": // lexicographic measure for `decreases`: lex(a, b, ...) of ints
 			v := Val{K: KTuple}
 			for i := range n.Args {
@@ -1084,7 +1124,20 @@ func (e *Engine) finish(st *State, rs []Val, root *Frame) {
 			if st.heap[key] == ent {
 				continue
 			}
-			e.oblige(st, fmt.Sprintf("%s#preserves:%s", e.fnShort(), key), "K3", "array unchanged at return: "+pc.Text, eq(st.heap[key], ent), "return", pc.Props)
+			// every location that existed at entry keeps its value (objects allocated since are exempt)
+			k := e.fresh("pr.k", "Int")
+			exists := fmt.Sprintf("(and (> %s 0) (< %s %s))", k, k, e.entry.A.term())
+			var same string
+			if strings.HasPrefix(key, "F:") || strings.HasPrefix(key, "C:") {
+				same = eq(sel(st.heap[key], k), sel(ent, k))
+			} else if strings.HasPrefix(key, "G:") {
+				same = eq(st.heap[key], ent)
+				exists = "true"
+			} else {
+				k2 := e.fresh("pr.k2", innerIndexSort(e.keySort[key]))
+				same = eq(sel(sel(st.heap[key], k), k2), sel(sel(ent, k), k2))
+			}
+			e.oblige(st, fmt.Sprintf("%s#preserves:%s", e.fnShort(), key), "K3", "locations that existed at entry are unchanged at return: "+pc.Text, implies(exists, same), "return", pc.Props)
 		}
 		if st.epoch != e.entry.epoch {
 			e.oblige(st, fmt.Sprintf("%s#preserves:<havoc>", e.fnShort()), "K3", "a callee without contract or frame ran: nothing is known about what it wrote", "false", "return", pc.Props)
@@ -1092,7 +1145,7 @@ func (e *Engine) finish(st *State, rs []Val, root *Frame) {
 		for _, ph := range st.pending {
 			for _, sub := range ph.eff.flat() {
 				for _, k := range keep {
-					if sub.mayHitFragment(k) {
+					if sub.mayHitFragment(k) && !sub.hitsOnlyTouched(k, st.heap) {
 						e.oblige(st, fmt.Sprintf("%s#preserves:%s<callee>", e.fnShort(), k), "K3", "a callee may write arrays matching "+k, "false", "return", pc.Props)
 					}
 				}
@@ -1242,6 +1295,9 @@ func (e *Engine) checkFrameRel(st, ref *State, c *Clause, env *SpecEnv, kind, wh
 		}
 	}
 	for _, key := range sortedKeys(st.heap) {
+		if isGhostKey(key) {
+			continue // ghost state changes only through ghost-effect clauses, never through code
+		}
 		exit := st.heap[key]
 		ent, ok := ref.heap[key]
 		if !ok {
